@@ -84,9 +84,9 @@ namespace svmon
       if (pos != st->cursor)
       {
         st->bad ("stream.stale-inc", "stale copy incremented (stream already advanced)", pos);
-        return *this;
+        pos = st->cursor;   // report, then behave like the live stream so that the caller's loop still terminates
       }
-      if (st->derefs[pos] == 0)
+      if (st->derefs[pos] == 0 && ! st->violated)
         st->bad ("stream.skip", "position skipped without being read", pos);
       ++st->total_incs;
       ++st->incs[pos];
